@@ -97,21 +97,21 @@ ADDED = {
  "C02": "descriptors with extra fields changed by the caller afterwards; partly consumed readers; nested indexes with dangling entries and subjects; scribbled caller buffers; finished upload sessions that keep being used; a Config value changed by the caller after construction",
  "C03": "stale resumes; registries with rotating upload ids; chunk-sized pieces; huge manifests; concurrent writes on one writer; sha384/sha512 content; pushes whose declared size disagrees with the content (in-memory and opaque readers); upload identifiers that base64 renders differently in its two alphabets; the backend's reader has to be closed once the caller is done with the call",
  "C04": "interleaved uploads; rotating upload ids; commit digests equal to a held blob's or empty; diverged unify sessions; a streaming writer with bodies of undeclared length; the deferred Cancel after a commit; a commit refused before the upload is looked at, then close, resume at Size(), commit",
- "C05": "artifact-type filtering; polyglot and childless referrers; contexts that end between pages; extreme page sizes; Link headers on some pages only; peers that leave empty list members out; peers that page with opaque cursors",
+ "C05": "artifact-type filtering; polyglot and childless referrers; contexts that end between pages; extreme page sizes; Link headers on some pages only; peers that leave empty list members out; peers that page with opaque cursors; member listings that fail with coded errors (DENIED, UNSUPPORTED, UNAUTHORIZED, TOOMANYREQUESTS)",
  "C06": "integer-edge ranges; location lists of 0, 1 and 2 entries; mid-stream reader failures; injected errors carrying upstream responses; mutations with code points whose low byte is a grammar character",
  "C07": "paged list carriers; error bodies at the client's size limit; errors wrapping an HTTP response; writers whose Close fails after a failed Write; kept responses with another status than the error",
  "C08": "resumes racing commits; failed commit versus cancel; large commits; the session's afterlife; callers reusing the buffers they handed in; a bystander in the forced commit window; independent registries used in parallel; a push from a stream that pauses while the registry is used (goroutine-dump verdict)",
  "C09": "union-built scopes; the catalog repository name; wildcard resource types; the zero triple; blank texts; sets many times the size of the others",
  "C10": "concurrent first use; sloppy challenges; a retry carrying a cached token must cover the required scope; token servers whose issued_at disagrees with the client's clock; HEAD and DELETE calls; one Scope value per desired set reused on request after request",
  "C11": "a token retry interleaved with a Basic challenge; config-file hosts; bodies of unknown length; foreign Host headers; caller-supplied Authorization headers; HEAD and DELETE calls",
- "C12": "listings under a done context; patient consumers; policy errors that are also standard errors; non-canonical names; an upload id issued for an allowed repository presented for a rejected one; traversals of one sequence value nested in each other",
- "C13": "concurrent callers; failing listings; hostile scope resource texts; the text of the rewritten scope has to read back as the scope",
+ "C12": "listings under a done context; patient consumers; policy errors that are also standard errors; non-canonical names; an upload id issued for an allowed repository presented for a rejected one; traversals of one sequence value nested in each other; listings from every start point over backends that ignore, include or strictly honour it",
+ "C13": "concurrent callers; failing listings; hostile scope resource texts; the text of the rewritten scope has to read back as the scope; a view of a view with the same prefix text",
  "C14": "upload-session afterlife; mutating calls under cancelled contexts; lying index entries; subjects that arrive after the tag (the protected set is recomputed after every push); a Config value changed by the caller after construction; references whose stated sizes are off",
  "C15": "rotating upload ids; diverged sessions; content known to one member while the other fails; partly consumed readers; a write the reference model accepts must be applied; an upload driven by the writer's own Size() after a stale resume, against a single registry; one member unreachable for exactly one resume",
  "C16": "uncancellable and foreign-typed parent contexts (no propagation goroutine may be left); options mutated after New; stalled readers; the unchosen reader is closed while the caller's context is live; empty and inverted ranges",
  "C17": "digests in query parameters (escaped, raw, beside broken escapes); cold routers; code points that fold onto ASCII; a helper binary that links ociref alone; hosts as other parsers read them",
  "C18": "writers resumed from their own ID; path-less Locations; every response body is released; redirects that net/http follows; well-formed error answers with every code",
- "C19": "concurrent first lookups on a fresh load; white space at either end of passwords; a default store whose program cannot be run; non-schema members in auths entries",
+ "C19": "concurrent first lookups on a fresh load; white space at either end of passwords; a default store whose program cannot be run; non-schema members in auths entries; a helper that says not-found on stderr",
  "C20": "nil iterators; independent argument classes; constructor errors including nil; reader types; descriptors with every field set; consumers that stop at the first error and range again; tags shaped like digests and references",
 }
 
